@@ -130,6 +130,9 @@ def cases(rng, tier, Case):
     for _ in range(6 if tier == "quick" else 100):
         sh = gen_shape(rng, True)
         res.append(Case("walk " + sh, "walk-deep", {"shape": sh}, compare=False))
+    # traversal with a callback that gives leaves a child: the new children must be visited too (implementation-only; oracle below)
+    for sh in ["()", "(())", "(()())", "((())())"] + [gen_shape(rng, False) for _ in range(n // 8)]:
+        res.append(Case("walk " + sh + " g", "walk-grow", {"shape": sh, "grow": 1}, compare=False))
     return res
 
 
@@ -144,6 +147,16 @@ def oracle(case, io, mo):
         return None
     order = walk_spec(p["shape"])
     parts = dict(x.split("=", 1) for x in io[3:].split(" "))
+    if "grow" in p:
+        # leaves of the original tree: nodes whose successor in pre-order is not deeper
+        leaf = {i for k, (i, d) in enumerate(order) if k + 1 == len(order) or order[k + 1][1] <= d}
+        exp = []
+        for i, d in order:
+            exp.append("%d/%d" % (i, d))
+            if i in leaf and i % 3 == 0:
+                exp.append("n%d/%d" % (i, d + 1))
+        if parts.get("g") != ",".join(exp):
+            return "walk_mut does not visit the children a node has after the callback (every node exactly once, pre-order, true depth)"
     want = ",".join("%d/%d" % (i, d) for i, d in order)
     if parts["w"] != want:
         return "walk does not visit the nodes in pre-order with their true depth"
